@@ -40,7 +40,8 @@ def descriptors(inp):
 # `model_validate`, `model_copy`) do not matter, and neither does the identity of the Term object.  The class of the
 # *Term* object does matter today (pydantic's `__eq__` demands equal classes): a term of a Term subclass is another
 # term than the plain Term with the same fields.  It is therefore part of the descriptor (`"termcls"`), i.e. of the
-# content (`read_back` records it), not a form.
+# content (`read_back` records it), not a form.  Whether that is intended is not for the evaluation checks to pin:
+# generators give all descriptors with the same term fields the same `termcls` within one pool.
 FORMS = ["plain", "sub", "subx", "validate", "validate_obj", "copy", "deepcopy", "update"]
 TERM_MODES = ["fresh", "shared", "cross"]
 TERM_CLASSES = ["sub", "subx"]
